@@ -27,12 +27,15 @@ def default_opts(kind):
 
 
 def wrap_opts(kind, flip, word_wrap):
-    """Options of the wrapping checks: the defaults, with the default-text switch flipped when `flip` is set."""
+    """Options of the wrapping checks: the defaults, with switches flipped according to the bits of `flip`."""
     opts = dict(default_opts(kind), word_wrap=word_wrap)
     if kind == "argparse":
         opts["wrap_description"] = word_wrap
-    if flip:
+    flip = int(flip)  # bit 0: default-text switch flipped; bit 1: function / method types in the docstring, not inline
+    if flip & 1:
         opts["emit_default_doc"] = not opts["emit_default_doc"]
+    if flip & 2 and "inline_types" in opts:
+        opts["inline_types"] = False
     return opts
 
 
